@@ -37,6 +37,21 @@ Record obs := mkObs {
   ob_dom : list domobs
 }.
 
+(* In the generated case files observations are interned: byte strings, per-channel
+   public-API observations and per-channel domain observations are tables, an image's
+   observation refers to them by position. *)
+Record rdom := mkRdom {
+  rd_key : N;
+  rd_list : list (Z * Z * option nat);
+  rd_probe : list (bool * option trange);
+  rd_fw : bool;
+  rd_list2 : list (Z * Z * option nat);
+  rd_probe2 : list (bool * option trange)
+}.
+Record robs := mkRobs {
+  ro_open : bool; ro_ch : list nat; ro_fw : list (list N * bool); ro_ch2 : list nat; ro_dom : list nat
+}.
+
 (* ------------------------------------------------------------------ the script (specification level) *)
 Inductive sop :=
 | SCreate (c : N) (idx : N)
@@ -66,9 +81,24 @@ Record case_t := mkCase {
   c_chans : list chan_case;
   c_glog : list (N * fsop);        (* recorded mutation log, tagged with the channel directory *)
   c_bounds : list nat;             (* length of the log after each script operation *)
-  c_imgs : list (nat * nat * nat); (* k, t, index into c_obs *)
-  c_obs : list obs
+  c_imgs : list (nat * nat * nat); (* k, t, index into c_robs *)
+  c_blobs : list bytes;
+  c_chtab : list chobs;
+  c_domtab : list rdom;
+  c_robs : list robs
 }.
+
+Definition res_ent (c : case_t) (e : Z * Z * option nat) : Z * Z * option bytes :=
+  (fst e, match snd e with Some i => Some (nth i (c_blobs c) []) | None => None end).
+Definition res_dom (c : case_t) (d : rdom) : domobs :=
+  mkDomobs (rd_key d) (map (res_ent c) (rd_list d)) (rd_probe d) (rd_fw d)
+           (map (res_ent c) (rd_list2 d)) (rd_probe2 d).
+Definition res_chs (c : case_t) (l : list nat) : list chobs :=
+  flat_map (fun i => match nth_error (c_chtab c) i with Some x => [x] | None => [] end) l.
+Definition res_obs (c : case_t) (r : robs) : obs :=
+  mkObs (ro_open r) (res_chs c (ro_ch r)) (ro_fw r) (res_chs c (ro_ch2 r))
+        (flat_map (fun i => match nth_error (c_domtab c) i with Some d => [res_dom c d] | None => [] end) (ro_dom r)).
+Definition get_obs (c : case_t) (i : nat) : option obs := option_map (res_obs c) (nth_error (c_robs c) i).
 
 (* ------------------------------------------------------------------ model side *)
 Fixpoint probes_run (s : st) (ps : list Z) : st * list (bool * option trange) :=
@@ -146,17 +176,67 @@ Definition model_open_ok (ds : dirs) : bool :=
 
 Definition find_dom (l : list domobs) (c : N) : option domobs := find (fun d => N.eqb (do_key d) c) l.
 
-Definition image_mismatch (c : case_t) (ds : dirs) (o : obs) : bool :=
-  negb (Bool.eqb (model_open_ok ds) (ob_open o)) ||
-  existsb (fun cc =>
-     match dir_of ds (cc_key cc), find_dom (ob_dom o) (cc_key cc) with
-     | None, None => false
-     | Some fs, Some d =>
-         negb (domobs_eqb (predict (c_cap c) (c_thr c) (c_dfollow c) (cc_key cc) (cc_probes cc) (Some fs)) d)
-     | _, _ => true
-     end) (c_chans c).
+(* the model's prediction for one channel directory (None: the directory does not exist) *)
+Definition pred_dir (c : case_t) (cc : chan_case) (d : dirst) : option domobs :=
+  match d with
+  | None => None
+  | Some _ => Some (predict (c_cap c) (c_thr c) (c_dfollow c) (cc_key cc) (cc_probes cc) d)
+  end.
 
-(* walk the log once, evaluating f at every image; images are sorted by (k, t) *)
+Definition odom_eqb (a b : option domobs) : bool :=
+  match a, b with Some x, Some y => domobs_eqb x y | None, None => true | _, _ => false end.
+
+Definition image_mismatch (c : case_t) (ds : dirs) (pred : chan_case -> option domobs) (o : obs) : bool :=
+  negb (Bool.eqb (model_open_ok ds) (ob_open o)) ||
+  existsb (fun cc => negb (odom_eqb (pred cc) (find_dom (ob_dom o) (cc_key cc)))) (c_chans c).
+
+(* predictions are cached per channel and recomputed only when a call touched the directory *)
+Notation pcache := (list (N * option domobs)).
+Definition ensure (c : case_t) (ds : dirs) (cache : pcache) : pcache :=
+  fold_left (fun acc cc =>
+               match assoc acc (cc_key cc) with
+               | Some _ => acc
+               | None => assoc_set acc (cc_key cc) (pred_dir c cc (dir_of ds (cc_key cc)))
+               end) (c_chans c) cache.
+
+Definition cached (cache : pcache) (cc : chan_case) : option domobs :=
+  match assoc cache (cc_key cc) with Some p => p | None => None end.
+
+Definition eval_image (c : case_t) (ds : dirs) (cache : pcache) (next : option (N * fsop)) (kto : nat * nat * nat) : bool :=
+  match get_obs c (snd kto) with
+  | None => true
+  | Some o =>
+      match snd (fst kto), next with
+      | S _, Some (tc, op) =>
+          let ds' := dirs_apply ds (tc, torn op (snd (fst kto))) in
+          image_mismatch c ds'
+            (fun cc => if N.eqb (cc_key cc) tc then pred_dir c cc (dir_of ds' tc) else cached cache cc) o
+      | _, _ => image_mismatch c ds (cached cache) o
+      end
+  end.
+
+(* walk the log once, evaluating every image; images are sorted by (k, t) *)
+Fixpoint mwalk (c : case_t) (log : list (N * fsop)) (pos : nat) (ds : dirs) (cache : pcache)
+         (imgs : list (nat * nat * nat)) (fuel : nat) : list (nat * nat) :=
+  match fuel with
+  | O => []
+  | S fu =>
+      match imgs with
+      | [] => []
+      | (k, t, o) :: r =>
+          if (pos <? k)%nat then
+            match log with
+            | [] => [(k, t)]
+            | co :: log' => mwalk c log' (S pos) (dirs_apply ds co) (assoc_del cache (fst co)) imgs fu
+            end
+          else
+            let cache' := ensure c ds cache in
+            let rest := mwalk c log pos ds cache' r fu in
+            if eval_image c ds cache' (hd_error log) (k, t, o) then (k, t) :: rest else rest
+      end
+  end.
+
+(* generic walk (diagnostics) *)
 Fixpoint walk {A} (f : dirs -> option (N * fsop) -> nat * nat * nat -> A)
          (log : list (N * fsop)) (pos : nat) (ds : dirs) (imgs : list (nat * nat * nat)) (fuel : nat) : list A :=
   match fuel with
@@ -176,14 +256,11 @@ Fixpoint walk {A} (f : dirs -> option (N * fsop) -> nat * nat * nat -> A)
 
 Definition walk_fuel (c : case_t) : nat := S (length (c_glog c) + length (c_imgs c)).
 
+Definition bad_images (c : case_t) : list (nat * nat) :=
+  mwalk c (c_glog c) O [] [] (c_imgs c) (walk_fuel c).
+
 Definition images_mismatch (c : case_t) : bool :=
-  existsb (fun b => b)
-    (walk (fun ds next kto =>
-             match nth_error (c_obs c) (snd kto) with
-             | Some o => image_mismatch c (image_dirs ds next (snd (fst kto))) o
-             | None => true
-             end)
-          (c_glog c) O [] (c_imgs c) (walk_fuel c)).
+  match bad_images c with [] => false | _ => true end.
 
 Definition chan_log (c : case_t) (k : N) : list fsop :=
   map snd (filter (fun co => N.eqb (fst co) k) (c_glog c)).
@@ -439,7 +516,7 @@ Definition chan_class (c : case_t) (ws : wins) (k : N) : nat :=
 (* violations of one image: list of window classes, one per violated clause *)
 Definition image_violations (c : case_t) (tr : list sstate) (ws : wins) (kto : nat * nat * nat) : list nat :=
   let '(k, t, oi) := kto in
-  match nth_error (c_obs c) oi with
+  match get_obs c oi with
   | None => [0%nat]
   | Some o =>
       if negb (ob_open o) then
@@ -471,19 +548,20 @@ Definition violations (cs : list case_t) : list nat := find_idx violates cs.
 Definition viol_tags (c : case_t) : list nat := nodup Nat.eq_dec (case_violations c).
 
 (* diagnostics *)
+Definition viol_detail (c : case_t) : list (nat * nat * list nat) :=
+  let tr := strace ([], []) (c_script c) in
+  concat (wwalk (fun ws kto => match image_violations c tr ws kto with
+                               | [] => []
+                               | l => [(fst (fst kto), snd (fst kto), l)]
+                               end) (c_glog c) O [] (c_imgs c) (walk_fuel c)).
+
 Definition model_dump (c : case_t) :=
   map (fun cc =>
      let '(_, ess, ocs) := run (init (c_cap c) (c_thr c)) (map fst (cc_ops cc)) in
      (cc_key cc, concat ess, ocs)) (c_chans c).
 
 Definition mismatch_detail (c : case_t) : bool * bool * list (nat * nat) :=
-  (log_mismatch c, errs_mismatch c,
-   concat (walk (fun ds next kto =>
-             match nth_error (c_obs c) (snd kto) with
-             | Some o => if image_mismatch c (image_dirs ds next (snd (fst kto))) o then [fst kto] else []
-             | None => [fst kto]
-             end)
-          (c_glog c) O [] (c_imgs c) (walk_fuel c))).
+  (log_mismatch c, errs_mismatch c, bad_images c).
 
 Definition predict_at (c : case_t) (k t : nat) : list domobs :=
   concat (walk (fun ds next kto =>
